@@ -95,6 +95,32 @@ theorem rt_string_print {F : GFile} (hl : RtLink F) (gw : GWorld) (s : String) :
   have hcall := ev_call (ty := .void) hfn (evl_cons hx evl_nil) (call_print hres)
   exact call_func_env hf rfl (block_cons (stmt_expr hcall) (block_cons_sig (sig := .ret .unit) (by simp) (stmt_ret ev_unitv))) rfl
 
+/-- the conversion `int32(x)` of an integer -/
+theorem call_int32 {F : GFile} {w : GWorld} {b : Nat} {s : Bool} {x : Int} (h : F.findFunc "int32" = none) :
+    CallS F w (.func "int32") [.int b s x] (.ok (.int 32 true (Sem.wrap 32 true x)) w) := by
+  refine ⟨1, fun k hk => ?_⟩
+  obtain ⟨k, rfl, -⟩ := succ_of_le hk
+  rw [callG.eq_def]; simp [h, isIntTy, convert]
+
+theorem call_len_str {F : GFile} {w : GWorld} {s : String} (h : F.findFunc "len" = none) :
+    CallS F w (.func "len") [.str s] (.ok (.int 64 true s.utf8ByteSize) w) := by
+  refine ⟨1, fun k hk => ?_⟩
+  obtain ⟨k, rfl, -⟩ := succ_of_le hk
+  rw [callG.eq_def]; simp [h]
+
+/-- `string_len(s)`: `return int32(len(s))` -/
+theorem rt_string_len {F : GFile} (hl : RtLink F) (gw : GWorld) (s : String) :
+    CallS F gw (.func "string_len") [.str s] (.ok (.int 32 true (Sem.wrap 32 true s.utf8ByteSize)) gw) := by
+  have hf : F.findFunc "string_len" = some fnStringLen := hl.rt _ _ rfl
+  have hlen : F.findFunc "len" = none := hl.reserved _ (by simp [reservedGoNames])
+  have hi32 : F.findFunc "int32" = none := hl.reserved _ (by simp [reservedGoNames])
+  have hx : EvS F [("s", GVal.str s)] gw (sV "s" tStr) (.ok (.str s) gw) := ev_var_some (lookup_cons_self _ _ _)
+  have h1 : EvS F [("s", GVal.str s)] gw (.call i32 (sV "len" (.func [tStr] i32)) [sV "s" tStr]) (.ok (.int 64 true s.utf8ByteSize) gw) :=
+    ev_call (ev_var_none (lookup_single_ne _ (by decide))) (evl_cons hx evl_nil) (call_len_str hlen)
+  have h2 := ev_call (ty := i32) (ev_var_none (F := F) (ρ := [("s", GVal.str s)]) (w := gw) (x := "int32") (ty := .func [i32] i32)
+    (lookup_single_ne _ (by decide))) (evl_cons h1 evl_nil) (call_int32 hi32)
+  exact call_func_env hf rfl (block_cons_sig (rest := []) (by simp) (stmt_ret h2)) rfl
+
 theorem argsRel_single {env : Env} {η : Hp} {vs : List Val} {gvs : List GVal} {t : Ty} (h : ArgsRel env η vs gvs [t]) :
     ∃ v g, vs = [v] ∧ gvs = [g] ∧ VRel env η v t g ∧ HasTy env η v t := by
   rcases vs with _ | ⟨v, _ | ⟨v2, vs⟩⟩ <;> rcases gvs with _ | ⟨g, _ | ⟨g2, gs⟩⟩ <;> simp [ArgsRel] at h
@@ -139,7 +165,7 @@ theorem builtin_int {env : Env} {η : Hp} {F : GFile} (hl : RtLink F) (name : St
 /-- the builtins keep their names in Go -/
 theorem vn_builtin {b : String} (hb : b ∈ builtinNames) : vn b = b := by
   simp only [builtinNames, List.mem_cons, List.mem_singleton, List.not_mem_nil, or_false] at hb
-  rcases hb with rfl | rfl | rfl | rfl | rfl | rfl | rfl | rfl | rfl | rfl | rfl | rfl <;> decide +kernel
+  rcases hb with rfl | rfl | rfl | rfl | rfl | rfl | rfl | rfl | rfl | rfl | rfl | rfl | rfl <;> decide +kernel
 
 /-- every stage (a) builtin: `Sem.builtin` and the runtime function of that name agree -/
 theorem builtin_call {env : Env} {η : Hp} {F : GFile} (hl : RtLink F) {b : String} {ps : List Ty} {r : Ty} {vs : List Val} {gvs : List GVal}
@@ -148,7 +174,7 @@ theorem builtin_call {env : Env} {η : Hp} {F : GFile} (hl : RtLink F) {b : Stri
     ∃ v w' gv gw', Sem.builtin b vs w = some (.ok v w') ∧ CallS F gw (.func b) gvs (.ok gv gw') ∧
       VRel env η v r gv ∧ HasTy env η v r ∧ WRel env η w' gw' := by
   simp only [builtinNames, List.mem_cons, List.mem_singleton, List.not_mem_nil, or_false] at hb
-  rcases hb with rfl | rfl | rfl | rfl | rfl | rfl | rfl | rfl | rfl | rfl | rfl | rfl <;>
+  rcases hb with rfl | rfl | rfl | rfl | rfl | rfl | rfl | rfl | rfl | rfl | rfl | rfl | rfl <;>
     (simp only [builtinSig, Option.some.injEq, Prod.mk.injEq] at hsig; obtain ⟨hp, hr⟩ := hsig; subst hp; subst hr)
   · obtain ⟨v, g, rfl, rfl, hg, ht⟩ := argsRel_single hargs
     have := hasTy_unit ht; subst this
@@ -176,5 +202,9 @@ theorem builtin_call {env : Env} {η : Hp} {F : GFile} (hl : RtLink F) {b : Stri
     refine ⟨_, _, _, _, rfl, rt_string_println hl gw s, by simp [VRel], trivial, ?_⟩
     have := (hw.print s).print "\n"
     simpa [String.append_assoc] using this
+  · obtain ⟨v, g, rfl, rfl, hg, ht⟩ := argsRel_single hargs
+    obtain ⟨s, rfl⟩ := hasTy_str ht
+    simp [VRel] at hg; subst hg
+    exact ⟨_, w, _, gw, rfl, rt_string_len hl gw s, by simp [VRel], ⟨rfl, rfl, wrap_wrap _ _ _⟩, hw⟩
 
 end Goml.GoComp
